@@ -952,6 +952,46 @@ def _weekyear_cross_rule_histories(depth):
 
 
 
+# ---- every year asked COLD (all caches just emptied) against the same year asked in a warm ascending pass ----------------------
+
+def _cold_years_shard(arg):
+    """differential oracle without a hand-written expected value: the year/month structure of year y read right after every
+    reachable cache of the calendar was emptied must equal the one read during an ascending pass over the whole block
+    (an entry type whose 'never written' marker is mistaken for a valid entry only shows on a cold slot)"""
+    cal_id, y0, y1 = arg
+    acc = Acc()
+    cal = CalendarSystem.for_id(cal_id)
+    caches = _find_year_caches(cal._year_month_day_calculator)
+    if not caches:
+        acc.degrade("calendar %s: no year caches reachable - cold/warm comparison not run" % cal_id)
+        return acc
+
+    def probe(y):
+        try:
+            miy = cal.get_months_in_year(y)
+            start = impl.days_of(LocalDate(y, 1, 1, cal))
+            return (cal.get_days_in_year(y), miy, tuple((impl.days_of(LocalDate(y, m, 1, cal)) - start, cal.get_days_in_month(y, m)) for m in range(1, miy + 1)),
+                    impl.days_of(LocalDate(y, miy, cal.get_days_in_month(y, miy), cal)) - start)
+        except Exception as e:  # noqa: BLE001
+            if exc_origin(e) == "harness":
+                raise
+            return ("raises", type(e).__name__)
+    _reset_year_caches(caches)
+    warm = {y: probe(y) for y in range(y0, y1)}
+    for y in range(y0, y1):
+        _reset_year_caches(caches)
+        cold = probe(y)
+        acc.count(states=1, evaluations=1, transitions=2, nontrivial=1)
+        if cold != warm[y]:
+            acc.violation("C13/cold-years/%s" % cal_id, "year %d of %s read right after the caches were emptied gives %r; read during an ascending pass it gives %r" % (y, cal_id, cold, warm[y]),
+                          {"kind": "cold-year", "calendar": cal_id, "year": y})
+            break
+    _reset_year_caches(caches)
+    acc.outcome("cold-years:%s" % cal_id)
+    return acc
+
+
+
 def _calendar_routes():
     routes = []
     for cid in CalendarSystem.ids:
@@ -1751,6 +1791,23 @@ def run(ctx):
     jobs = [(cid, ydepth, ctx.seed, b) for cid in CalendarSystem.ids for b in (False, True)]
     for acc in pmap(_years_histories, jobs):
         ctx.merge_part("hist_year_caches", acc)
+    cjobs = []
+    for cid in CalendarSystem.ids:
+        cal = CalendarSystem.for_id(cid)
+        full = tier != "quick" or cid.startswith("Hebrew")
+        lo, hi = cal.min_year, cal.max_year + 1
+        if not full:
+            # quick: the first 2200 years (two laps of the 1024 slots), and the last 1100
+            blocks = [(lo, min(hi, lo + 2200)), (max(lo, hi - 1100), hi)]
+        else:
+            blocks = [(lo, hi)]
+        for a, b in blocks:
+            for x in range(a, b, 550):
+                cjobs.append((cid, x, min(b, x + 550)))
+    for acc in pmap(_cold_years_shard, cjobs):
+        ctx.merge_part("cold_years", acc)
+    if tier == "quick":
+        ctx.cap("cold-years: non-Hebrew calendars ask only their first 2200 and last 1100 years cold (Hebrew: every year)")
     mark("hist_year_caches")
     zdepth = 3 if tier == "quick" else 4
     zjobs = [(z, zdepth, 12 if tier == "quick" else 14) for z in ("Europe/London", "Europe/Vienna", "Pacific/Apia", "Asia/Gaza", "America/Sao_Paulo", "Australia/Lord_Howe")]
